@@ -1,37 +1,68 @@
 #!/venv/bin/python
 """Development aid (not registered in MANIFEST): apply each seeded change under seeded/<name>/ to /repo,
 run the pinned baseline (optional), the demonstration and the property's quick check, undo the change.
-usage: tools/run_seeded.py [--baseline] [name ...]"""
+By default the change is applied to a scratch copy of /repo's HEAD (selected with ASYNKIT_REPO) so
+that checks running concurrently against /repo are not disturbed; --in-place applies it to /repo
+itself (git apply ... git checkout -- .), which is how the registered checks are meant to be used.
+usage: tools/run_seeded.py [--baseline] [--in-place] [name ...]"""
 import json, subprocess, sys, os
 from pathlib import Path
 ROOT = Path(__file__).resolve().parent.parent
 args = [a for a in sys.argv[1:] if not a.startswith("--")]
 base = "--baseline" in sys.argv
+inplace = "--in-place" in sys.argv
+import shutil, tempfile
 names = args or sorted(p.name for p in (ROOT / "seeded").iterdir() if (p / "patch.diff").exists())
 rows = []
 for n in names:
     d = ROOT / "seeded" / n
     meta = json.loads((d / "meta.json").read_text())
     prop = meta["property"]
-    r = subprocess.run(["git", "-C", "/repo", "apply", str(d / "patch.diff")], capture_output=True, text=True)
+    if inplace:
+        target = "/repo"
+    else:
+        target = tempfile.mkdtemp(prefix="seeded_", dir="/tmp")
+        subprocess.run(f"git -C /repo archive HEAD | tar -x -C {target}", shell=True, check=True)
+    r = subprocess.run(["git", "apply", str(d / "patch.diff")] if not inplace else
+                       ["git", "-C", "/repo", "apply", str(d / "patch.diff")],
+                       capture_output=True, text=True, cwd=target)
     if r.returncode:
-        rows.append((n, prop, "PATCH DOES NOT APPLY", "", "")); continue
+        rows.append((n, prop, "PATCH DOES NOT APPLY", "", ""))
+        if not inplace:
+            shutil.rmtree(target, ignore_errors=True)
+        continue
+    env = dict(os.environ, PYTHONPATH=f"{target}/src")
+    if not inplace:
+        env["ASYNKIT_REPO"] = target
     try:
         b = ""
         if base:
-            b = "baseline ok" if subprocess.run([str(ROOT / "tools/baseline.py")], capture_output=True).returncode == 0 else "BASELINE BROKEN"
+            if inplace:
+                ok = subprocess.run([str(ROOT / "tools/baseline.py")], capture_output=True).returncode == 0
+            else:
+                # same pinned test files, run inside the scratch copy
+                r2 = subprocess.run(["/venv/bin/python", "-m", "pytest", "-q", "-p", "no:cacheprovider", "--timeout=900",
+                                     "--continue-on-collection-errors"],
+                                    cwd=target, env=env, capture_output=True, text=True)
+                import re
+                m = re.search(r"(\d+) passed", r2.stdout)
+                ok = bool(m) and int(m.group(1)) >= 261
+            b = "baseline ok" if ok else "BASELINE BROKEN"
         demo = d / "demo.py"
         dm = ""
         if demo.exists():
-            rc = subprocess.run(["/venv/bin/python", str(demo)], capture_output=True, env=dict(os.environ, PYTHONPATH="/repo/src"), timeout=300).returncode
+            rc = subprocess.run(["/venv/bin/python", str(demo)], capture_output=True, env=env, timeout=300).returncode
             dm = "demo fails" if rc else "DEMO PASSES"
-        c = subprocess.run([str(ROOT / "check"), prop], capture_output=True, text=True, cwd=ROOT, timeout=1800)
+        c = subprocess.run([str(ROOT / "check"), prop], capture_output=True, text=True, cwd=ROOT, timeout=1800, env=env)
         vio = [l for l in c.stdout.split("\n") if l.startswith("VIOLATION")]
         kind = "MISSED (exit %d)" % c.returncode
         if vio:
             kind = "caught: " + ("no-failing-input-found" if all("no-failing-input-found" in v for v in vio) else "concrete replay") + f" ({len(vio)} line(s))"
         rows.append((n, prop, b, dm, kind))
     finally:
-        subprocess.run(["git", "-C", "/repo", "checkout", "--", "."])
+        if inplace:
+            subprocess.run(["git", "-C", "/repo", "checkout", "--", "."])
+        else:
+            shutil.rmtree(target, ignore_errors=True)
 for r in rows:
     print(" | ".join(r))
